@@ -49,6 +49,8 @@
 
 mod orswot;
 mod timestamp;
+#[cfg(datacake_verif)]
+pub mod verif;
 
 #[cfg(feature = "rkyv-support")]
 pub use orswot::BadState;
